@@ -1111,3 +1111,59 @@ pub fn gen_cli_run(seed: u64, corpus: &[CorpusDoc], faults: bool) -> CliRun {
         fault,
     }
 }
+
+
+/// Re-encode a JSON document with a seeded permutation of the members of
+/// every object and seeded white space: same content, different bytes.
+pub fn reencode_json(text: &str, rng: &mut Rng) -> Option<String> {
+    // serde_json (without preserve_order) sorts keys on parse, so the
+    // permutation has to be produced while writing
+    fn ws(rng: &mut Rng) -> &'static str {
+        *rng.pick(&["", " ", "\n", "\n  ", "\t", "  "])
+    }
+    fn write(v: &serde_json::Value, rng: &mut Rng, out: &mut String) {
+        match v {
+            serde_json::Value::Object(m) => {
+                let mut keys: Vec<&String> = m.keys().collect();
+                rng.shuffle(&mut keys);
+                out.push('{');
+                for (i, k) in keys.iter().enumerate() {
+                    if i > 0 {
+                        out.push(',');
+                    }
+                    out.push_str(ws(rng));
+                    out.push_str(&serde_json::to_string(k).unwrap());
+                    out.push_str(ws(rng));
+                    out.push(':');
+                    out.push_str(ws(rng));
+                    write(&m[*k], rng, out);
+                }
+                out.push_str(ws(rng));
+                out.push('}');
+            }
+            serde_json::Value::Array(a) => {
+                out.push('[');
+                for (i, x) in a.iter().enumerate() {
+                    if i > 0 {
+                        out.push(',');
+                    }
+                    out.push_str(ws(rng));
+                    write(x, rng, out);
+                }
+                out.push_str(ws(rng));
+                out.push(']');
+            }
+            other => out.push_str(&serde_json::to_string(other).unwrap()),
+        }
+    }
+    let v: serde_json::Value = serde_json::from_str(text).ok()?;
+    let mut out = String::new();
+    write(&v, rng, &mut out);
+    out.push('\n');
+    // same content?
+    let back: serde_json::Value = serde_json::from_str(&out).ok()?;
+    if back != v {
+        return None;
+    }
+    Some(out)
+}
